@@ -27,7 +27,30 @@ class T:
         return show(self)
 
 
+def _small_int_limbs(f, arr):
+    """from_le_limbs(f, [lo, hi, 0, ..]) where the limbs are the 64-bit halves of one integer x < 2^128:  the field element x"""
+    limbs = arr.args
+    if len(limbs) < 2 or any(not (l.op == "lit" and l.args[0] == 0 and l.args[0] is not False) for l in limbs[2:]):
+        return None
+    lo, hi = limbs[0], limbs[1]
+    if all(l.op == "lit" and isinstance(l.args[0], int) and not isinstance(l.args[0], bool) for l in (lo, hi)):
+        return mk("int_to_field", f, lit(lo.args[0] + (hi.args[0] << 64)))
+    if lo.op == "cast" and lo.args[0] == "u64" and hi.op == "cast" and hi.args[0] == "u64" and hi.args[1] is intop("shr", lo.args[1], lit(64)):
+        return mk("int_to_field", f, lo.args[1])
+    if hi.op == "lit" and hi.args[0] == 0 and hi.args[0] is not False:
+        return mk("int_to_field", f, lo)
+    return None
+
+
 def mk(op, *args):
+    if op == "from_le_limbs" and len(args) == 2 and isinstance(args[1], T) and args[1].op == "array":
+        r = _small_int_limbs(args[0], args[1])
+        if r is not None:
+            return r
+    if op == "int_to_field" and args[1].op == "lit" and isinstance(args[1].args[0], int) and not isinstance(args[1].args[0], bool):
+        from .consts import MODULI
+        if args[0] in MODULI and 0 <= args[1].args[0] < MODULI[args[0]]:
+            return mk("felem", args[0], args[1].args[0])
     if op == "array" and args:
         if _is_le_limbs(args):
             return mk("le_u64_limbs", args[0].args[0].args[0])
@@ -469,6 +492,43 @@ def cmp(op, a, b):
         x, y = a.args[0], b.args[0]
         return lit({"lt": x < y, "le": x <= y, "gt": x > y, "ge": x >= y}[op])
     return mk(op, a, b)
+
+
+def assume(t, c, truth, _memo=None):
+    """t simplified under the assumption that condition c has the given truth value"""
+    if _memo is None:
+        _memo = {}
+    if not isinstance(t, T):
+        return t
+    if t is c:
+        return TRUE if truth else FALSE
+    k = id(t)
+    if k in _memo:
+        return _memo[k]
+    if not t.args:
+        _memo[k] = t
+        return t
+    new = [assume(a, c, truth, _memo) for a in t.args]
+    if all(x is y for x, y in zip(new, t.args)):
+        r = t
+    else:
+        r = rebuild(t.op, new)
+    _memo[k] = r
+    return r
+
+
+def first_branch_cond(v):
+    """the condition of the outermost ITE found in v (v itself, or left to right in the components of tuples)"""
+    if not isinstance(v, T):
+        return None
+    if v.op == "ite":
+        return v.args[0]
+    if v.op == "tuple":
+        for a in v.args:
+            c = first_branch_cond(a)
+            if c is not None:
+                return c
+    return None
 
 
 def rebuild(op, args):
